@@ -74,9 +74,9 @@ META.update({
 
 META.update({
     'C02': dict(level='translation_validation', design_ref='DESIGN.md 4.2 R-BOUND/R-SAN/R-VAL, 4.4 G-SPEC/G-LWW, 5/C02',
-                technique='MIR guard-program extraction over a spelling x layout corpus vs the value each spelling denotes; compile verdicts for forms that must be refused; lints on the attribute parser',
+                technique='MIR guard-program extraction over a spelling x layout corpus vs the value each spelling denotes; outcome-table comparison of every conversion / from_str / deserialize with the constructor; compile verdicts for forms that must be refused; lints on the attribute parser',
                 text='Every bound spelling (literals of both signs, underscores, int literal for float, exponent floats, T::MIN/MAX, constants, -CONST, !literal, parenthesised / shift / arithmetic / cast / block / if / match expressions, macro invocations, module paths, calls) x attribute layout (block order, trailing commas, closure vs path, regex literal vs static) '
-                     'is expanded and the extracted guard program must contain every written rule with the bound the spelling denotes (constants folded by rustc and by the checker). Repeated blocks must be refused or all enforced. '
+                     'is expanded and the extracted guard program must contain every written rule with the bound the spelling denotes (constants folded by rustc and by the checker). Repeated blocks must be refused or all enforced. Every route into the type (each conversion, from_str, deserialize) must have the outcome table of the constructor, so that no written rule is dropped on one route (R-DELEG over the same corpus). '
                      'Parser lints: no speculative parse on the live token stream followed by another alternative (G-SPEC); no unguarded last-writer-wins assignment in the attribute loop (G-LWW).',
                 note=TRUSTED),
     'C08': dict(level='other', design_ref='DESIGN.md 5/C08, Appendix A',
@@ -102,4 +102,4 @@ NOT_YET = {
 
 # obligation floors: half of what the quick tier counted on the pinned tree (2026-10-02). A run that finds no violation but
 # discharges fewer obligations than this has lost its anchors (impls not found, rules returning early): no verdict.
-OB_FLOOR = {'C01': 28600, 'C02': 24491, 'C03': 7187, 'C04': 4411, 'C05': 112208, 'C06': 4683, 'C07': 24467, 'C08': 1704, 'C09': 2614, 'C10': 6278, 'C11': 25241, 'C12': 2402, 'C13': 30408, 'C14': 2756, 'C15': 187, 'C16': 6082}
+OB_FLOOR = {'C01': 28600, 'C02': 41917, 'C03': 7187, 'C04': 4411, 'C05': 112208, 'C06': 4683, 'C07': 24467, 'C08': 1704, 'C09': 2614, 'C10': 6278, 'C11': 25241, 'C12': 2402, 'C13': 30408, 'C14': 2756, 'C15': 187, 'C16': 6082}
